@@ -8,6 +8,72 @@ from sa.cli import run_property
 from sa.model import repo_root, AnalysisError, PACKAGES
 from sa import props
 
+class _Renamer(ast.NodeTransformer):
+    """Rename every local variable of every top-level function/method (nested defs included) by appending `_v`."""
+    def __init__(self):
+        self.map = None
+
+    def _unit(self, node):
+        params = set()
+        stores = set()
+        glob = set()
+        for n in ast.walk(node):
+            if isinstance(n, (ast.FunctionDef, ast.AsyncFunctionDef, ast.Lambda)):
+                a = n.args
+                for x in a.posonlyargs + a.args + a.kwonlyargs:
+                    params.add(x.arg)
+                if a.vararg:
+                    params.add(a.vararg.arg)
+                if a.kwarg:
+                    params.add(a.kwarg.arg)
+                if not isinstance(n, ast.Lambda) and n is not node:
+                    stores.add(n.name)
+            elif isinstance(n, ast.Name) and isinstance(n.ctx, (ast.Store, ast.Del)):
+                stores.add(n.id)
+            elif isinstance(n, (ast.Global, ast.Nonlocal)):
+                glob |= set(n.names)
+            elif isinstance(n, ast.ExceptHandler) and n.name:
+                stores.add(n.name)
+            elif isinstance(n, (ast.Import, ast.ImportFrom)):
+                for al in n.names:
+                    glob.add((al.asname or al.name).split(".")[0])
+        return {x: x + "_v" for x in stores - params - glob}
+
+    def visit_FunctionDef(self, node):
+        if self.map is None:
+            self.map = self._unit(node)
+            for i, st in enumerate(node.body):
+                node.body[i] = self.visit(st)
+            self.map = None
+            return node
+        if node.name in self.map:
+            node.name = self.map[node.name]
+        self.generic_visit(node)
+        return node
+
+    def visit_Name(self, node):
+        if self.map and node.id in self.map:
+            node.id = self.map[node.id]
+        return node
+
+    def visit_ExceptHandler(self, node):
+        if self.map and node.name in self.map:
+            node.name = self.map[node.name]
+        self.generic_visit(node)
+        return node
+
+
+class _Logger(ast.NodeTransformer):
+    """Insert a harmless logging call at the start of every function body."""
+    def visit_FunctionDef(self, node):
+        self.generic_visit(node)
+        stmt = ast.parse('__import__("logging").getLogger("emulators").debug("enter")').body[0]
+        i = 1 if (node.body and isinstance(node.body[0], ast.Expr) and isinstance(node.body[0].value, ast.Constant)
+                  and isinstance(node.body[0].value.value, str)) else 0
+        node.body.insert(i, stmt)
+        return node
+
+
 def overlay(kind):
     ov = {}
     root = repo_root()
@@ -19,12 +85,19 @@ def overlay(kind):
                     src = open(os.path.join(dp, f)).read()
                     if kind == "unparse":
                         ov[rel] = ast.unparse(ast.parse(src)) + "\n"
+                    elif kind == "rename":
+                        ov[rel] = ast.unparse(ast.fix_missing_locations(_Renamer().visit(ast.parse(src)))) + "\n"
+                        compile(ov[rel], rel, "exec")
+                    elif kind == "log":
+                        ov[rel] = ast.unparse(ast.fix_missing_locations(_Logger().visit(ast.parse(src)))) + "\n"
+                        compile(ov[rel], rel, "exec")
                     else:
                         ov[rel] = "# pad\n" * 7 + src if not src.startswith("from __future__") else src.replace("\n", "\n" + "# pad\n" * 7, 1)
     return ov
 
 bad = 0
-for kind in ("unparse", "pad"):
+KINDS = [k for k in os.environ.get("TWIN_KINDS", "unparse,pad,rename,log").split(",")]
+for kind in KINDS:
     ov = overlay(kind)
     for pid in (sys.argv[1:] or props.ids()):
         try:
